@@ -885,7 +885,7 @@ class _DFILoc:
         out = DataFrame()
         out.index = df.index[r]
         out.columns = list(sel)
-        out._cols = {n: df._cols[n][r] for n in sel}
+        out._cols = _ColMap((n, df._cols[n][r]) for n in sel)
         return out
 
 
@@ -923,17 +923,67 @@ class _DFLoc:
         self.df._cols[c][pos] = v
 
 
+class _ColMap:
+    """label -> column array; labels may be symbolic, so look-ups compare with `_eq` (never hash)"""
+
+    def __init__(self, pairs=()):
+        self._k = []
+        self._v = []
+        for k, v in (pairs.items() if isinstance(pairs, (dict, _ColMap)) else pairs):
+            self[k] = v
+
+    def _find(self, k):
+        for i, k2 in enumerate(self._k):
+            if k2 is k or _eq(k2, k):
+                return i
+        return None
+
+    def __getitem__(self, k):
+        i = self._find(k)
+        if i is None:
+            raise KeyError(k)
+        return self._v[i]
+
+    def __setitem__(self, k, v):
+        i = self._find(k)
+        if i is None:
+            self._k.append(k)
+            self._v.append(v)
+        else:
+            self._v[i] = v
+
+    def __contains__(self, k):
+        return self._find(k) is not None
+
+    def items(self):
+        return list(zip(self._k, self._v))
+
+    def keys(self):
+        return list(self._k)
+
+    def get(self, k, default=None):
+        i = self._find(k)
+        return default if i is None else self._v[i]
+
+
+def _inlist(k, lst):
+    for k2 in lst:
+        if k2 is k or _eq(k2, k):
+            return True
+    return False
+
+
 class DataFrame:
     """column store; cells may be any python object"""
 
     def __init__(self, data=None, index=None, columns=None, dtype=None, copy=False):
-        self._cols = {}
+        self._cols = _ColMap()
         self.columns = []
         n = 0
         if data is None:
             pass
         elif isinstance(data, DataFrame):
-            self._cols = {k: v.copy() for k, v in data._cols.items()}
+            self._cols = _ColMap((k, v.copy()) for k, v in data._cols.items())
             self.columns = list(data.columns)
             index = data.index if index is None else index
             n = len(data)
@@ -954,13 +1004,15 @@ class DataFrame:
             index = data.index if index is None else index
             n = len(data)
         elif isinstance(data, list) and data and _b.all(isinstance(r, (Series, dict)) for r in data):
-            rows = [dict(zip(list(r.index._v._a), list(r._v._a))) if isinstance(r, Series) else dict(r) for r in data]
+            rows = [_ColMap(zip(list(r.index._v._a), list(r._v._a))) if isinstance(r, Series) else _ColMap(r) for r in data]
             for r in rows:
-                for k in r:
-                    if k not in self.columns:
+                for k in r.keys():
+                    if not _inlist(k, self.columns):
                         self.columns.append(k)
+            if _b.all(isinstance(c, (SInt, _b.int)) for c in self.columns) and len(self.columns) > 1:
+                self.columns = mnp._sorted(list(self.columns))  # pandas sorts the union of differing integer indexes
             for c in self.columns:
-                self._cols[c] = _arr([r.get(c, mnp.nan) for r in rows])
+                self._cols[c] = _arr1([r.get(c, mnp.nan) for r in rows])
             n = len(rows)
         else:
             a = _obj(data)
@@ -1017,8 +1069,33 @@ class DataFrame:
 
     @property
     def T(self):
-        # only ever consumed as array data by the anchored code (assignment into an ndarray slice)
-        return self.to_numpy().T
+        out = DataFrame()
+        out.index = Index(list(self.columns)) if self.columns else Index([])
+        labs = list(self.index._v._a)
+        vals = self.to_numpy()._a
+        out.columns = labs
+        out._cols = _ColMap((lab, NDArr(vals[i, :].copy())) for i, lab in enumerate(labs))
+        return out
+
+    @property
+    def columns(self):
+        return self._columns
+
+    @columns.setter
+    def columns(self, labels):
+        if isinstance(labels, Index):
+            labels = list(labels._v._a)
+        elif hasattr(labels, "_mnp_values") or isinstance(labels, NDArr):
+            labels = list(_obj(labels).flat)
+        else:
+            labels = list(labels)
+        old = getattr(self, "_columns", None)
+        cm = getattr(self, "_cols", None)
+        if old and cm is not None and cm.keys():
+            if len(labels) != len(old):
+                raise ValueError("Length mismatch: Expected axis has %d elements, new values have %d elements" % (len(old), len(labels)))
+            self._cols = _ColMap((new, cm[o]) for o, new in zip(old, labels))
+        self._columns = labels
 
     @property
     def iloc(self):
@@ -1033,7 +1110,7 @@ class DataFrame:
             out = DataFrame()
             out.index = self.index
             out.columns = list(k)
-            out._cols = {c: self._cols[c] for c in k}
+            out._cols = _ColMap((c, self._cols[c]) for c in k)
             return out
         if isinstance(k, (Series, NDArr)):
             pos = _positions(self.index, k)
@@ -1080,7 +1157,7 @@ class DataFrame:
             row = dict(zip(list(row.index._v._a), list(row._v._a)))
         if isinstance(row, DataFrame):
             out = DataFrame()
-            out.columns = list(self.columns) + [c for c in row.columns if c not in self.columns]
+            out.columns = list(self.columns) + [c for c in row.columns if not _inlist(c, self.columns)]
             for c in out.columns:
                 a = list(self._cols[c]._a) if c in self._cols else [mnp.nan] * len(self)
                 b = list(row._cols[c]._a) if c in row._cols else [mnp.nan] * len(row)
@@ -1088,7 +1165,7 @@ class DataFrame:
             out.index = RangeIndex(len(self) + len(row)) if ignore_index else Index(list(self.index._v._a) + list(row.index._v._a))
             return out
         out = DataFrame()
-        out.columns = list(self.columns) + [k for k in row if k not in self.columns]
+        out.columns = list(self.columns) + [k for k in row if not _inlist(k, self.columns)]
         n = len(self)
         for c in out.columns:
             old = list(self._cols[c]._a) if c in self._cols else [mnp.nan] * n
@@ -1115,7 +1192,7 @@ class DataFrame:
         out = DataFrame()
         out.index = self.index
         out.columns = [p + str(c) for c in self.columns]
-        out._cols = {p + str(c): self._cols[c] for c in self.columns}
+        out._cols = _ColMap((p + str(c), self._cols[c]) for c in self.columns)
         return out
 
     def rename(self, columns=None, **kw):
@@ -1123,14 +1200,14 @@ class DataFrame:
         out.index = self.index
         m = columns if callable(columns) else (lambda c: columns.get(c, c))
         out.columns = [m(c) for c in self.columns]
-        out._cols = {m(c): self._cols[c] for c in self.columns}
+        out._cols = _ColMap((m(c), self._cols[c]) for c in self.columns)
         return out
 
     def combine_first(self, other):
         if other is None:
             return self
         out = DataFrame()
-        cols = list(self.columns) + [c for c in other.columns if c not in self.columns]
+        cols = list(self.columns) + [c for c in other.columns if not _inlist(c, self.columns)]
         first = None
         for c in cols:
             a = self[c] if c in self._cols else Series([mnp.nan] * len(self), index=self.index)
@@ -1172,13 +1249,13 @@ class DataFrame:
     def astype(self, t):
         out = DataFrame()
         out.index, out.columns = self.index, list(self.columns)
-        out._cols = {c: self._cols[c].astype(t) for c in self.columns}
+        out._cols = _ColMap((c, self._cols[c].astype(t)) for c in self.columns)
         return out
 
     def isna(self):
         out = DataFrame()
         out.index, out.columns = self.index, list(self.columns)
-        out._cols = {c: mnp.isnan(self._cols[c]) for c in self.columns}
+        out._cols = _ColMap((c, mnp.isnan(self._cols[c])) for c in self.columns)
         return out
 
     def equals(self, o):
